@@ -113,14 +113,36 @@ def run(ck):
     ]
     ok, _ = ck.build_static(['Props/C18.v', 'Cases/C18Cases.v'])
     if ok:
-        ck.props('Props/C18.v', closed=())
+        import re
+        from ..common import COQ, strip_comments
+        names = re.findall(r'Print Assumptions\s+([A-Za-z0-9_\'.]+)\s*\.', strip_comments((COQ / 'Props/C18.v').read_text()))
+        ck.props('Props/C18.v', closed=names)      # every C18 theorem is axiom-free
+
+    if ck.replay:
+        # re-evaluate the stored case on both models (the sequence itself is regenerated deterministically by --seed)
+        import json
+        rep = json.loads(open(ck.replay).read())
+        term = (rep.get('replay') or {}).get('case')
+        if isinstance(term, str):
+            bd, e1 = ck.coq_eval_mismatches(HEADER, 'case18', [term], 'check18d', tag='replayd')
+            bf, e2 = ck.coq_eval_mismatches(HEADER, 'case18', [term], 'check18f', tag='replayf')
+            ck.log(f'replay: stored observation agrees with the model of the code as it is: {not bd}; with the repaired model: {not bf}')
+            if e1 or e2:
+                ck.broken.append('replay evaluation failed: ' + ((e1 or '') + (e2 or ''))[:400])
+            elif bd and bf:
+                ck.violation(rep.get('what', 'replayed case'), rep['replay'], key=None)
+            elif bd is not None and not bd and bf:
+                ck.violation(rep.get('what', 'replayed case'), rep['replay'], key=rep.get('key'))
+        else:
+            ck.log('replay file holds a direct observation on fpy2 (no model case); re-run with --seed %s to regenerate it' % rep.get('seed'))
+        return
 
     rng = Rng(ck.seed, 'c18')
     ctxs = {m: fp.MPFixedContext(-1, getattr(fp.RM, m)) for m in L.MODES}
     direct = []   # direct violations reported by replay
 
     # ------------------------------------------------------------ correspondence
-    n_rand = 8000 if thorough else 1500
+    n_rand = 5000 if thorough else 600
     kinds = (['witness-bump', 'witness-get', 'witness-getx'] +
              [('clean' if k % 10 < 6 else 'dirty' if k % 10 < 9 else 'oob') for k in range(n_rand)])
     cases = []
@@ -139,8 +161,16 @@ def run(ck):
             direct.append((what, {'case': n, 'kind': kind, 'detail': detail}, key))
 
         mops, obs = L.replay(fns, objs, midx, ops, ctxs, rng, report)
-        term = ('([' + '; '.join(L.fn_coq(f) for f in fns) + '], [' + '; '.join(L.op_coq(o) for o in mops) +
-                '], [' + '; '.join(L.obs_coq(o) for o in obs) + '])')
+        # the caller's own module-level lists (the captured free variables) are the caller's: never written
+        for idx, f in enumerate(fns):
+            if f.copy_of is None:
+                for j, (_, tree) in enumerate(f.caps):
+                    now = getattr(mod, f'G{idx}_{j}')
+                    if now != tree:
+                        direct.append(('a module-level list captured by an FPy function was modified', {'case': n, 'kind': kind,
+                                       'fn': L.fn_source(f, idx), 'before': repr(tree), 'after': repr(now)}, None))
+        term = (f'({L.cl(L.fn_coq(f) for f in fns)}, {L.cl(L.op_coq(o) for o in mops)}, '
+                f'{L.cl(L.obs_coq(o) for o in obs)})')
         dirty = any(not f.clean() for f in fns)
         key = None
         if dirty:
